@@ -168,3 +168,22 @@ Example C01_reference_indirect_eval_this :
         [Full.JExpr (Full.XLog (Full.XBin Full.PSeq Full.XThis (Full.XVar [116]))); Full.JExpr (Full.XGet Full.XThis [97])]))]
   = ([Full.WBool true; Full.WUndef], Full.FNormal).
 Proof. vm_compute. reflexivity. Qed.
+
+(* 11.6.1 steps 5-7: "n=" + {valueOf: -> log(1), 1; toString: -> log(2), "x"} asks valueOf (hint-less ToPrimitive of BOTH
+   operands comes before the string test) and concatenates ToString of the primitives: "n=1" *)
+Example C01_reference_plus_string_after_toprimitive :
+  let fn t r := Full.XFun [] [Full.JExpr (Full.XLog (Full.XLit (Full.WNum t))); Full.JReturn (Some (Full.XLit r))] in
+  Full.run_program 60 [Full.JExpr (Full.XLog (Full.XBin Full.PAdd (Full.XLit (Full.WStr [110; 61]))
+      (Full.XObj [(Full.s_valueOf, fn 1%Z (Full.WNum 1)); (Full.s_toString, fn 2%Z (Full.WStr [120]))])))]
+  = ([Full.WNum 1; Full.WStr [110; 61; 49]], Full.FNormal).
+Proof. vm_compute. reflexivity. Qed.
+
+(* 11.12 returns GetValue of the chosen branch: var o = {m: function () { log(this === o) }}; (1 ? o.m : 0)() runs with
+   this = the global object, o.m() with this = o *)
+Example C01_reference_conditional_yields_value :
+  let o := [111] in let m := [109] in
+  Full.run_program 60 [Full.JVar o (Some (Full.XObj [(m, Full.XFun [] [Full.JExpr (Full.XLog (Full.XBin Full.PSeq Full.XThis (Full.XVar o)))])]));
+     Full.JExpr (Full.XCall (Full.XCond (Full.XLit (Full.WNum 1)) (Full.XGet (Full.XVar o) m) (Full.XLit (Full.WNum 0))) []);
+     Full.JExpr (Full.XMCall (Full.XVar o) m [])]
+  = ([Full.WBool false; Full.WBool true], Full.FNormal).
+Proof. vm_compute. reflexivity. Qed.
